@@ -90,6 +90,19 @@ func runC20(c *eng.Ctx) {
 					if origin == "" {
 						continue
 					}
+					// The same value was identified as one particular sentinel
+					// (`case io.EOF:` after `case nil:`): that is a classified outcome
+					// (end of input), exactly as when the sentinel test is written
+					// before the nil test and no `err != nil` fact exists at all.
+					classified := false
+					for _, a2 := range eng.Guards(ret) {
+						if b2, ok := a2.V.(*ssa.BinOp); ok && a2.Pos && b2.Op == token.EQL && (b2.X == x || b2.Y == x) && !eng.IsNilConst(b2.X) && !eng.IsNilConst(b2.Y) {
+							classified = true
+						}
+					}
+					if classified {
+						continue
+					}
 					key := eng.FuncName(fn) + "<-" + origin
 					if why, ok := c20AllowNilUnderErr[key]; ok {
 						burns := false
